@@ -46,7 +46,7 @@ WIDE = {
     "C14": SIGNED + UNSIGNED + WORDS,
 }
 # operand pairs per wide type (quick, thorough); measured: ~1.5-4 ms of TLC time per judged event
-PAIRS = {"C11": (700, 12000), "C12": (1200, 20000), "C13": (500, 9000), "C14": (420, 7000)}
+PAIRS = {"C11": (550, 12000), "C12": (1200, 20000), "C13": (450, 9000), "C14": (320, 7000)}
 
 
 def _env():
@@ -103,10 +103,16 @@ def table_jobs(ctx, prop):
     for t, ops in TABLE[prop].items():
         for op in ops:
             cfg = write_cfg(ctx, "Table8_%s_%s.cfg" % (t, op),
-                            'SPECIFICATION Spec\nCONSTANTS TName = "%s"\n Op = "%s"\n Cross = TRUE\nINVARIANT RowOK\n' % (t, op))
+                            'SPECIFICATION Spec\nCONSTANTS TName = "%s"\n Op = "%s"\n Cross = "%s"\nINVARIANT RowOK\n' % (t, op, "some" if ctx.quick else "all"))
             jobs.append({"files": BASE + ["num/Table8.tla", cfg], "module": "Table8", "cfg": os.path.basename(cfg),
                          "tag": "t8-%s-%s" % (t, op), "timeout": 900, "t": t, "op": op})
     return jobs
+
+
+def cross_row(t, a, quick):
+    """Mirror of Table8!CrossRow (only used to count, for the evidence file)."""
+    lo, hi = (-128, 127) if t == "Int8" else (0, 255)
+    return (not quick) or a in (lo, lo + 1, -1, 0, 1, 2, hi - 1, hi) or a % 16 == 5
 
 
 def code_name(c):
@@ -123,14 +129,26 @@ def run_table(ctx, binary, prop, jobs, results):
         rows += rs
     rp = os.path.join(ctx.work, "rows8.ndjson")
     op = os.path.join(ctx.work, "table8.out.ndjson")
-    write_ndjson(rp, rows)
+    # negative control: a copy of one row with one entry changed must be reported by the driver
+    # (on all three paths); it is recognised by its marker and never reported as a finding
+    ctl = json.loads(json.dumps(rows[len(rows) // 2]))
+    ctl["ctl"] = True
+    ctl["v"][0] = 1000 if ctl["v"][0] < 1000 else 0
+    write_ndjson(rp, rows + [ctl])
     ctx.run([binary, "table", prop, rp, op], timeout=1500)
     out = read_ndjson(op)
     summ = [o for o in out if o.get("summary")]
     if not summ:
         raise Infra("num table wrote no summary")
     summ = summ[0]
-    mism = [o for o in out if not o.get("summary")]
+    mism = [o for o in out if not o.get("summary") and not o.get("ctl")]
+    nctl = len([o for o in out if o.get("ctl")])
+    if nctl != 3:
+        raise Infra("negative control: the corrupted table entry was reported %d times, expected 3 (value method, script on interpreter, script on VM)" % nctl)
+    summ["rows"] -= 1
+    summ["entries"] -= len(ctl["v"])
+    summ["direct"] -= len(ctl["v"])
+    summ["script_evals"] -= 2 * len(ctl["v"])
     for m in mism:
         if m.get("other") and ("Checker" in m["other"] or "Pars" in m["other"]):
             raise Infra("generated script rejected by the checker: %s" % m)
@@ -149,9 +167,9 @@ def run_table(ctx, binary, prop, jobs, results):
             if r["a"] != 0 and (b != 0 or r["op"] == "neg"):
                 nontrivial.add((r["t"], r["op"], r["a"], b))
     if rows:
-        r = rows[len(rows) // 3]
+        r = next((x for x in rows if x["a"] in (-100, 200)), rows[len(rows) // 3])
         ctx.add_sample({"kind": "8-bit table row (TLC-computed, compared entry by entry with value methods and scripts on both engines)",
-                        "type": r["t"], "op": r["op"], "a": r["a"], "entries_for_b_from_min": r["v"][:24], "codes": "1000 range error, 1001 division by zero, 1002 negative shift"})
+                        "type": r["t"], "op": r["op"], "a": r["a"], "entries_for_b_from_min": r["v"][:40], "codes": "1000 range error, 1001 division by zero, 1002 negative shift"})
     return summ, rows, len(nontrivial), errors
 
 
@@ -184,11 +202,12 @@ def check_sema(ctx, binary, ops):
     return sema
 
 
-def judge_chunks(ctx, events, module_files, module, cfgname, tagp):
+def judge_chunks(ctx, events, module_files, module, cfgname, tagp, controls):
     """Split events over one TLC per core; returns the list of non-ok verdict records."""
     rnd = random.Random(ctx.seed)
     evs = list(events)
     rnd.shuffle(evs)               # spread the expensive types evenly
+    evs = controls + evs           # negative controls (k <= 0): TLC must reject every one of them
     n = max(1, min(ctx.cores, (len(evs) + 399) // 400))
     jobs = []
     for c in range(n):
@@ -207,7 +226,22 @@ def judge_chunks(ctx, events, module_files, module, cfgname, tagp):
             raise Infra("TLC judged %d of %d events in %s" % (r.distinct - 1, j["n"], j["tag"]))
         judged += j["n"]
         verdicts += r.json_lines()
-    return verdicts, judged, n
+    rejected = {v["k"] for v in verdicts if v["v"] == "bad"}
+    for c in controls:
+        if c["k"] not in rejected:
+            raise Infra("negative control: TLC accepted a corrupted event: %s" % json.dumps(c)[:500])
+    verdicts = [v for v in verdicts if v["k"] > 0]
+    return verdicts, judged - len(controls), n
+
+
+def trace_controls(events):
+    """Corrupted copies of real events: one result limb changed, one outcome flipped."""
+    src = next((e for e in events if e["out"] == "ok" and e["r"]["m"] and e["r"]["m"][0] >= 2 and e["op"] != "divmod"), None)
+    if src is None:
+        raise Infra("no event suitable for the negative control")
+    c1 = json.loads(json.dumps(src)); c1["k"] = 0; c1["r"]["m"][0] ^= 1
+    c2 = json.loads(json.dumps(src)); c2["k"] = -1; c2["out"] = "overflow"; c2["r"] = {"n": False, "m": []}
+    return [c1, c2]
 
 
 def describe(ev):
@@ -251,7 +285,7 @@ def run_trace(ctx, binary, prop, ops_res):
                 if not summ["per_type_op"].get("%s.%s" % (t, m)):
                     raise Infra("declared member %s.%s was not exercised" % (t, m))
     files = BASE + ["num/NumJudge.tla", "num/NumJudge.cfg"]
-    verdicts, judged, nchunks = judge_chunks(ctx, events, files, "NumJudge", "NumJudge.cfg", "judge")
+    verdicts, judged, nchunks = judge_chunks(ctx, events, files, "NumJudge", "NumJudge.cfg", "judge", trace_controls(events))
     byk = {e["k"]: e for e in events}
     for v in verdicts:
         ev = byk[v["k"]]
@@ -293,7 +327,7 @@ def check_int_prop(ctx, prop):
                 "executed through the value method and through scripts on interpreter and VM",
         "exhaustive": True,
         "table8_rows": tsum["rows"], "table8_entries": tsum["entries"], "table8_error_entries": tsum["error_entries"],
-        "table8_entries_cross_checked_by_relational_judge": tsum["entries"],
+        "table8_rows_cross_checked_by_relational_judge": sum(1 for r in rows if cross_row(r["t"], r["a"], ctx.quick)),
         "scripts_executed": tsum["scripts"] + wsum["scripts"],
         "wide_events_judged_by_tlc": judged, "wide_error_outcomes": w_errors, "tlc_judge_chunks": nchunks,
         "wide_events_per_type_op": wsum["per_type_op"],
@@ -352,7 +386,10 @@ def check_C32(ctx):
     if len(events) != want:
         raise Infra("driver produced %d events for %d enumerated descriptor combinations" % (len(events), want))
     files = mfiles + ["num/MC_BigMeterJudge.tla", "num/MC_BigMeterJudge.cfg"]
-    verdicts, judged, nchunks = judge_chunks(ctx, events, files, "MC_BigMeterJudge", "MC_BigMeterJudge.cfg", "mjudge")
+    src = next(e for e in events if e["out"] == "ok" and e["words"] >= 2 and e["t"] == "Int" and e["op"] == "add")
+    c1 = json.loads(json.dumps(src)); c1["k"] = 0
+    c1["metered"] = {"n": False, "m": [8 * src["words"] - 1]}           # one byte short: must be rejected
+    verdicts, judged, nchunks = judge_chunks(ctx, events, files, "MC_BigMeterJudge", "MC_BigMeterJudge.cfg", "mjudge", [c1])
     byk = {e["k"]: e for e in events}
 
     def desc(e):
@@ -391,6 +428,44 @@ def check_C32(ctx):
         "random operands are seeded by VERIF_SEED; the size classes and boundary values are exhaustive within the bound",
     ])
 
+
+# ------------------------------------------------------------------------------------------ replay
+def _replay(ctx, obj):
+    """bin/vcheck Cxx --replay f: re-execute the recorded case and let TLC judge it again."""
+    _env()
+    binary = ctx.build("num")
+    ev = obj.get("replay") or {}
+    sig = obj.get("sig", {})
+    if sig.get("kind") == "meter":
+        row = {"t": ev["t"], "op": ev["op"], "a": ev["a"], "bs": [ev["b"]] if ev["b"].get("kind") in ("max", "min", "rnd") else [],
+               "ns": [ev["n"]] if ev["op"] in ("shl", "shr") else []}
+        rp, tp = os.path.join(ctx.work, "row.ndjson"), os.path.join(ctx.work, "trace.ndjson")
+        write_ndjson(rp, [row])
+        ctx.run([binary, "meter", rp, tp])
+        events = [o for o in read_ndjson(tp) if not o.get("summary")]
+        files, mod, cfg = ["num/Bignum.tla", "num/BigMeter.tla", "num/MC_BigMeterJudge.tla", "num/MC_BigMeterJudge.cfg"], "MC_BigMeterJudge", "MC_BigMeterJudge.cfg"
+        show = lambda e: "%s %s |a|=%d |b|=%d n=%d: metered %d bytes, result %d bytes" % (e["t"], e["op"], e["wa"], e["wb"], e["n"], zval(e["metered"]), 8 * e["words"])
+    else:
+        if sig.get("kind") == "table8":
+            t, op, a, b = ev["t"], ev["op"], ev["a"], ev["b"]
+        else:
+            t, op, a, b = ev["t"], ev["op"], zval(ev["a"]), zval(ev["b"])
+        tp = os.path.join(ctx.work, "trace.ndjson")
+        ctx.run([binary, "one", t, op, str(a), str(b), tp])
+        events = read_ndjson(tp)
+        files, mod, cfg = BASE + ["num/NumJudge.tla", "num/NumJudge.cfg"], "NumJudge", "NumJudge.cfg"
+        show = describe
+    r = ctx.tlc(files + [tp], mod, cfg, workers=1, tag="replay")
+    bad = {v["k"]: v for v in r.json_lines()}
+    rc = 0
+    for e in events:
+        v = bad.get(e["k"])
+        print("REPLAY %s: %s" % ("REJECTED by the specification (%s, deviation %s)" % (v["cls"], v["dev"]) if v else "accepted", show(e)))
+        rc = rc or (1 if v else 0)
+    return rc
+
+
+replay_C11 = replay_C12 = replay_C13 = replay_C14 = replay_C32 = _replay
 
 _T = "TLA+ specification (spec/num: Bignum, IntArith, Bits, Table8, Operands, NumJudge) checked with TLC; "
 META = {
